@@ -2,51 +2,123 @@ package main
 
 import (
 	"fmt"
-	"time"
+	"math/big"
+	"os"
+	"strconv"
 
-	"github.com/MinterTeam/minter-go-node/coreV2/transaction"
 	"github.com/MinterTeam/minter-go-node/coreV2/types"
 	"verif/harness/h"
 )
 
+func comps(e *types.AppState) map[string]*big.Int {
+	m := map[string]*big.Int{}
+	add := func(k string, s string) {
+		if m[k] == nil {
+			m[k] = new(big.Int)
+		}
+		m[k].Add(m[k], h.BI(s))
+	}
+	for _, a := range e.Accounts {
+		for _, b := range a.Balance {
+			if b.Coin == 0 {
+				add("bal", b.Value)
+			}
+		}
+	}
+	for _, c := range e.Candidates {
+		for _, s := range c.Stakes {
+			if s.Coin == 0 {
+				add("stake", s.Value)
+			}
+		}
+		for _, s := range c.Updates {
+			if s.Coin == 0 {
+				add("upd", s.Value)
+			}
+		}
+	}
+	for _, x := range e.Waitlist {
+		if x.Coin == 0 {
+			add("wl", x.Value)
+		}
+	}
+	for _, x := range e.FrozenFunds {
+		if x.Coin == 0 {
+			add("ff", x.Value)
+		}
+	}
+	for _, p := range e.Pools {
+		if p.Coin0 == 0 {
+			add("pool", p.Reserve0)
+		}
+		for _, o := range p.Orders {
+			if !o.IsSale && p.Coin0 == 0 {
+				add("ord", o.Volume0)
+			}
+		}
+	}
+	for _, c := range e.Coins {
+		if c.Crr > 0 {
+			add("res", c.Reserve)
+		}
+	}
+	for _, v := range e.Validators {
+		add("accum", v.AccumReward)
+	}
+	add("slashed", e.TotalSlashed)
+	return m
+}
+
 func main() {
-	types.CurrentChainID = types.ChainTestnet
-	r := h.Rng(1, "smoke", 0)
-	gen, w := h.BuildGenesis(h.GenSpec{Family: "small", ExtraCands: 2, Orders: 3, Filler: false}, r)
-	if err := gen.Verify(); err != nil {
+	hist, err := h.LoadHistory(os.Args[1])
+	if err != nil {
 		panic(err)
 	}
-	n := h.NewNode(h.NodeOpts{StakePeriod: 12})
-	t0 := time.Date(2022, 5, 1, 10, 0, 0, 0, time.UTC)
-	resp, pi := n.InitChain(gen, 1, t0)
-	fmt.Println("init", len(resp.Validators), pi)
-	var votes []h.Vote
-	for _, v := range w.Vals[:4] {
-		votes = append(votes, h.Vote{Addr: v.Addr, Power: 1, Signed: true})
+	target, _ := strconv.ParseInt(os.Args[2], 10, 64)
+	types.CurrentChainID = types.ChainID(hist.ChainID)
+	gen := hist.GenesisOf()
+	w := &h.World{ValOwner: map[types.Pubkey]*h.Key{}, ValCtl: map[types.Pubkey]*h.Key{}, InitialHeight: hist.InitialHeight}
+	s := h.NewSim("dbg", 1, 0, gen, w, h.NodeOpts{StakePeriod: hist.StakePeriod, ExpirePeriod: hist.ExpirePeriod, KeepLastStates: hist.KeepLast}, h.Rng(1, "x", 0))
+	for i := range hist.Blocks {
+		req, metas := hist.Blocks[i].Req()
+		res := s.RunBlock(req, metas, nil)
+		if req.Height == target-1 && os.Getenv("VALS") != "" {
+			for _, v := range s.Post.Validators {
+				fmt.Println("VAL", v.PubKey.String()[:10], v.TotalBipStake, v.AccumReward)
+			}
+			for _, c := range s.Post.Candidates {
+				fmt.Println("CAND", c.PubKey.String()[:10], "st", c.Status, "total", c.TotalBipStake, "stakes", len(c.Stakes), "upd", len(c.Updates))
+				for _, st := range c.Stakes {
+					fmt.Println("     stake", st.Owner.String()[:8], st.Coin, st.Value, st.BipValue)
+				}
+			}
+		}
+		if req.Height == target && res == nil {
+			fmt.Println("dead at target", s.Viol)
+		}
+		if req.Height == target && res != nil {
+			a, b := comps(s.Pre), comps(s.Post)
+			for k := range b {
+				if a[k] == nil {
+					a[k] = new(big.Int)
+				}
+				fmt.Println(k, new(big.Int).Sub(b[k], a[k]))
+			}
+			de, derr := s.N.DiskExport()
+			fmt.Println("frozen live", len(s.Post.FrozenFunds), "disk", len(de.FrozenFunds), derr, "lastver", s.N.LastVersion())
+			for hh := uint64(target); hh < uint64(target)+600; hh++ {
+				if ff := s.N.App.CurrentState().FrozenFunds().GetFrozenFunds(hh); ff != nil {
+					fmt.Println("frozen at", hh, len(ff.List))
+				}
+			}
+			fmt.Println("unbond period", types.GetUnbondPeriod())
+			for i, d := range res.Deliver {
+				fmt.Printf("tx %d type %02x code %d %s\n   tags %v\n", i, metas[i].Type, d.Code, d.Log, h.Tags(&d))
+			}
+			for _, l := range h.DiffExports(s.Pre, s.Post, 60, "/validators") {
+				fmt.Println("  ", l)
+			}
+			break
+		}
 	}
-	start := time.Now()
-	for i := int64(1); i <= 50; i++ {
-		req := &h.BlockReq{Height: i, Time: t0.Add(time.Duration(i) * 5 * time.Second), Votes: votes}
-		if i == 3 {
-			spec := &h.TxSpec{Nonce: 1, ChainID: types.CurrentChainID, GasPrice: 1, GasCoin: 0, Type: transaction.TypeSend,
-				Data: transaction.SendData{Coin: 0, To: w.Users[1].Addr, Value: h.Bip(5)}, Signer: w.Users[0]}
-			req.Txs = append(req.Txs, spec.Encode())
-		}
-		res := n.RunBlock(req, nil)
-		if res.Panic != nil {
-			fmt.Println("PANIC", res.Panic.Value, res.Panic.Site, "\n", res.Panic.Stack)
-			return
-		}
-		for _, d := range res.Deliver {
-			fmt.Println("tx", d.Code, d.Log, h.Tags(&d))
-		}
-		if i%10 == 0 {
-			fmt.Printf("h=%d hash=%x updates=%d\n", i, res.Commit.Data, len(res.End.ValidatorUpdates))
-		}
-	}
-	fmt.Println("50 blocks in", time.Since(start))
-	s := time.Now()
-	e := n.App.CurrentState().Export()
-	fmt.Println("export", time.Since(s), len(e.Accounts), len(e.Coins), len(e.Pools), len(e.Candidates))
-	fmt.Println("verify:", e.Verify())
 }
